@@ -24,6 +24,7 @@ def _margin(x: Fraction, eps=Fraction(1, 10**6)) -> bool:
 
 class C15(Prop):
     ID = "C15"
+    CHUNK = 20
     IMPORTS = ["Audio.Clip", "Audio.Resample", "Audio.Spectrogram"]
     PRELUDE = (
         "Definition ores (tol : Q) (m : option (list Q * Q)) (ts : list Q) (st : Q) : bool := "
@@ -36,7 +37,7 @@ class C15(Prop):
         "WAV files written by the harness (16-bit PCM, 1-3 channels, 40-400 frames) at power-of-two rates (exact stream: "
         "clip bounds on sample boundaries, j/sr) and at 8000..48000 Hz incl. 11025/22050/44100 (bounds off the boundaries, "
         "products kept 1e-6 away from whole numbers), time expansion 1, 10, 1/2; clips inside, across and exactly at the end "
-        "of file; resampling up/down; spectrogram window/hop giving whole and fractional sample counts. Compared: frame "
+        "of file; resampling up/down; spectrogram window/hop giving whole and fractional sample counts (window never longer than the audio). Compared: frame "
         "count and values, every time / frequency coordinate, step attributes. Non-trivial = accepted case with >= 2 "
         "coordinates; distinct by hash"
     )
@@ -57,7 +58,7 @@ class C15(Prop):
         te = rng.choice([1, 1, 1, 10, Fraction(1, 2)]) if not exact else rng.choice([1, 1, 2])
         if (Fraction(sr) * te).denominator != 1:
             te = 1
-        n = rng.randint(40, 400)
+        n = rng.randint(40, 160)
         ch = rng.randint(1, 3)
         return {"sr_file": sr, "te": Fraction(te), "n": n, "ch": ch, "seed": rng.randrange(1000)}
 
@@ -77,14 +78,14 @@ class C15(Prop):
                 if rng.random() < 0.3:
                     b += Fraction(1, 2) / sr
             else:
-                while True:
+                for _ in range(1000):
                     a = Fraction(rng.randint(0, n * 100), 100) / sr
                     b = a + Fraction(rng.randint(100, n * 100), 100) / sr
                     a, b = Fraction(float(a)), Fraction(float(b))
                     if _margin(a * sr) and _margin((b - a) * sr) and (b - a) * sr > 1:
                         break
             if rng.random() < 0.08:
-                a = Fraction(n + rng.randint(1, 5)) / sr  # starts beyond the end of file
+                a = (Fraction(n + rng.randint(1, 5)) + Fraction(1, 2)) / sr  # starts beyond the end of file (half a sample off the boundary)
                 b = a + Fraction(3) / sr
             c["start"], c["stop"] = a, b
         elif kind == "resample":
@@ -92,7 +93,9 @@ class C15(Prop):
             c["target"] = target
             if not exact:
                 step = Fraction(float(1 / float(sr)))
-                while not _margin(n * (target * step)):
+                for _ in range(200):
+                    if _margin(n * (target * step)):
+                        break
                     target = rng.choice(RATES + [12000, 32000, 7000, 9000])
                     c["target"] = target
         elif kind == "spectrogram":
@@ -105,21 +108,26 @@ class C15(Prop):
                     h += Fraction(1, 4) / sr
                 if h >= w:
                     h = w / 2
+                if w * sr >= n:  # a window longer than the audio is outside the quantifier (scipy silently shortens it)
+                    w, h = Fraction(16) / sr, Fraction(4) / sr
             else:
-                while True:
-                    w = Fraction(float(rng.choice([0.002, 0.004, 0.0025, 0.001, 0.003])))
-                    h = Fraction(float(rng.choice([0.001, 0.0005, 0.00125, 0.002, 0.0007])))
-                    step = Fraction(float(1 / float(sr)))
-                    srf = Fraction(float(1 / float(step)))
-                    if h < w and _margin(w * srf) and _margin((w - h) * srf) and w * srf > 2 and w * srf < n:
+                step = Fraction(float(1 / float(sr)))
+                srf = Fraction(float(1 / float(step)))
+                for _ in range(1000):
+                    # window between 8 and n/2 samples, hop between 1/8 and 3/4 of the window, both in "decimal" seconds
+                    wn = Fraction(rng.randint(800, max(900, n * 50)), 100)
+                    hn = wn * Fraction(rng.randint(12, 75), 100)
+                    w = Fraction(float(wn / sr))
+                    h = Fraction(float(hn / sr))
+                    if h < w and _margin(w * srf) and _margin((w - h) * srf) and 2 < w * srf < n and (w * srf).__floor__() - ((w - h) * srf).__floor__() >= 1:
                         break
             c["window"], c["hop"] = w, h
         return c
 
     def cases(self, rng, tier):
-        n = {"quick": 400, "thorough": 6000}[tier]
-        fixed = [{"kind": "spectrogram", "file": {"sr_file": 22050, "te": Fraction(1), "n": 400, "ch": 1, "seed": 1}, "exact": False,
-                  "window": Fraction(0.004), "hop": Fraction(0.0015)}]
+        n = {"quick": 320, "thorough": 6000}[tier]
+        fixed = [{"kind": "spectrogram", "file": {"sr_file": 22050, "te": Fraction(1), "n": 160, "ch": 1, "seed": 1}, "exact": False,
+                  "window": Fraction(0.004), "hop": Fraction(0.00145)}]
         return fixed + [self._case(rng) for _ in range(n)]
 
     # ------------------------------------------------------------------ implementation
